@@ -38,7 +38,7 @@
 EXTENDS Integers, Sequences, FiniteSets, TLC, Json
 CONSTANTS NP,          \* points of the universe used (4..6)
           MaxExtra,    \* observations added after the construction
-          Kinds,       \* constructions enabled: subset of {"polar", "polarA", "polarZ", "inter", "interZ", "resect", "resectA", "trilat", "ddb", "trav"}
+          Kinds,       \* constructions enabled: subset of {"polar", "polarA", "polarZ", "inter", "interZ", "resect", "resectA", "trilat", "ddb", "fs2", "trav"}
           Keep, Seed   \* thinning of the emitted cases
 
 (* distances are written with from < to; universe: lattice coordinates in units of 100 m *)
@@ -95,7 +95,9 @@ RDdb(O, K, p) == \E a, b, s \in K : /\ a < b /\ s \notin {a, b} /\ HasDist(O, a,
 TravObs(a, p, q, b) == {DistU(a, p), DistU(p, q), DistU(q, b), Dir(p, a), Dir(p, q), Dir(q, p), Dir(q, b)}
 RTrav(O, K, p) == \E a, b \in K, q \in Pt \ (K \cup {p}) : a # b /\ (TravObs(a, p, q, b) \subseteq O \/ TravObs(a, q, p, b) \subseteq O)
                                                            /\ Wide(p, a, q) /\ Wide(q, p, b)
-Solvable(O, K, p) == RPolar(O, K, p) \/ RInter(O, K, p) \/ RTrilat(O, K, p) \/ RResect(O, K, p) \/ RTrav(O, K, p) \/ RDdb(O, K, p)
+(* free station: directions and distances from the new point to two known points; the sense of the inner angle picks one of the two mirror images *)
+RFs2(O, K, p) == \E a, b \in K : a < b /\ Inner(O, p, a, b) /\ HasDist(O, a, p) /\ HasDist(O, b, p) /\ Wide(p, a, b)
+Solvable(O, K, p) == RFs2(O, K, p) \/ RPolar(O, K, p) \/ RInter(O, K, p) \/ RTrilat(O, K, p) \/ RResect(O, K, p) \/ RTrav(O, K, p) \/ RDdb(O, K, p)
 RECURSIVE Grow(_, _)
 Grow(O, K) == LET K2 == K \cup {p \in Pt \ K : Solvable(O, K, p)} IN IF K2 = K THEN K ELSE Grow(O, K2)
 Closure == Grow(obs, fixed)
@@ -126,6 +128,9 @@ PolarZ == "polarZ" \in Kinds /\ extra = 0 /\
 InterZ == "interZ" \in Kinds /\ extra = 0 /\
           \E p \in Pt \ Known, s1, s2 \in Known : /\ s1 # s2 /\ Wide(p, s1, s2)
             /\ \E q2 \in Known \ {s2} : Step("interZ", {p}, {Az(s1, p), Dir(s2, q2), Dir(s2, p)})          \* an azimuth and an oriented direction
+Fs2 == "fs2" \in Kinds /\ extra = 0 /\
+       \E p \in Pt \ Known, a, b \in Known : /\ a < b /\ Wide(p, a, b)
+         /\ Step("fs2", {p}, {Dir(p, a), Dir(p, b), DistU(a, p), DistU(b, p)})
 ResectA == "resectA" \in Kinds /\ extra = 0 /\
            \E p \in Pt \ Known, a, b, c \in Known : /\ a < b /\ b < c /\ OffCircle(p, a, b, c) /\ Wide(p, a, b) /\ Wide(p, a, c) /\ Wide(p, b, c)
              /\ Step("resectA", {p}, {Ang(p, a, b), Ang(p, b, c)})
@@ -144,7 +149,7 @@ Extra == /\ built # {} /\ extra < MaxExtra
                                     /\ obs' = obs \cup {o} /\ extra' = extra + 1
                                     /\ hist' = Append(hist, [k |-> "extra", o |-> o])
                                     /\ UNCHANGED <<fixed, built>>
-Next == Polar \/ PolarA \/ PolarZ \/ InterZ \/ Inter \/ Trilat \/ Resect \/ ResectA \/ Ddb \/ Trav \/ Extra
+Next == Fs2 \/ Polar \/ PolarA \/ PolarZ \/ InterZ \/ Inter \/ Trilat \/ Resect \/ ResectA \/ Ddb \/ Trav \/ Extra
 Spec == Init /\ [][Next]_vars
 
 (* ------------------------------------------------------------------ properties *)
